@@ -1176,11 +1176,11 @@ class OdeSystem(object):
                 return StateTuple(t=self.t[index], y=self.y[index], event=None)
         elif isinstance(index, slice):
             if index.start is not None:
-                start_idx = deutil.search_bisection(self.t[:self.counter + 1], index.start)
+                start_idx = self.__search_time(index.start)
             else:
                 start_idx = 0
             if index.stop is not None:
-                end_idx = deutil.search_bisection(self.t[:self.counter + 1], index.stop) + 1
+                end_idx = self.__search_time(index.stop) + 1
             else:
                 end_idx = self.counter + 1
             if index.step is not None:
@@ -1192,15 +1192,22 @@ class OdeSystem(object):
             if self.__dense_output and self.sol is not None:
                 return StateTuple(t=index, y=self.sol(index), event=None)
             else:
-                nearest_idx = deutil.search_bisection(self.__t, index)
-                if nearest_idx < self.counter:
-                    if D.ar_numpy.abs(D.ar_numpy.to_numpy(self.t[nearest_idx] - index)) < D.ar_numpy.abs(
-                            D.ar_numpy.to_numpy(self.t[nearest_idx + 1] - index)):
-                        return StateTuple(t=self.t[nearest_idx], y=self.y[nearest_idx], event=None)
-                    else:
-                        return StateTuple(t=self.t[nearest_idx + 1], y=self.y[nearest_idx + 1], event=None)
-                else:
-                    return StateTuple(t=self.t[nearest_idx], y=self.y[nearest_idx], event=None)
+                nearest_idx = self.__search_time(index)
+                if nearest_idx > 0 and D.ar_numpy.abs(D.ar_numpy.to_numpy(self.t[nearest_idx - 1] - index)) < D.ar_numpy.abs(
+                        D.ar_numpy.to_numpy(self.t[nearest_idx] - index)):
+                    nearest_idx = nearest_idx - 1
+                return StateTuple(t=self.t[nearest_idx], y=self.y[nearest_idx], event=None)
+
+    def __search_time(self, time):
+        """Index of the first recorded time that is not before `time` along the direction of integration (clipped to the last row)."""
+        t = self.t
+        if len(t) > 1 and t[-1] < t[0]:
+            reversed_t = t[::-1]
+            idx = deutil.search_bisection(reversed_t, time)
+            if idx > 0 and reversed_t[idx] > time:
+                idx = idx - 1
+            return len(t) - 1 - idx
+        return deutil.search_bisection(t, time)
 
     def __len__(self):
         return self.counter + 1
